@@ -25,7 +25,7 @@ TYPES = [
      ['name=value; Secure; HttpOnly; Path=/; Domain=example.com; SameSite=Lax', 'a=b', 'sid=abc123; Max-Age=3600; Secure']),
     ('content_type', 'httpx.header.HttpHeaderFieldValueContentType', ';', ' ', '=', 1, ['charset'],
      ['text/html; charset=utf-8', 'application/json', 'multipart/form-data; boundary=something']),
-    ('xxss', 'httpx.header.HttpHeaderFieldValueXXSSProtection', ';', ' ', '=', 1, [], ['1; mode=block', '0', '1']),
+    ('xxss', 'httpx.header.HttpHeaderFieldValueXXSSProtection', ';', ' ', '=', 1, [], ['1; mode=block', '0', '1', '1; report=http://example.com/r', '1; mode=block; report=https://example.com/xss']),
     ('csp', 'httpx.header.HttpHeaderFieldValueContentSecurityPolicy', ';', ' ', ' ', 0, [],
      ["default-src 'self'; script-src 'self' https://example.com", "default-src 'none'", "img-src *; frame-ancestors 'none'"]),
     ('dmarc', 'dnsrec.txt.DnsRecordTxtValueDmarc', ';', ' ', '=', 2, [],
@@ -229,6 +229,37 @@ def replay_prims(rep):
     rep.evaluations += n
 
 
+def fragment_block():
+    """a header block of fields the library does NOT know whose names are fragments of names it knows (Cookie, Transport-Security,
+    Policy, Options, ...), each with a value its longer namesake accepts: they stay unknown fields under their own name"""
+    from .. import corpus, objects
+    from cryptoparser.httpx.header import HttpHeaderFields
+    lines = {}
+    for cls, obj, wire in objects.templates():
+        if cls is HttpHeaderFields:
+            for line in bytes(wire).split(b'\r\n'):
+                if b': ' in line:
+                    name, value = line.split(b': ', 1)
+                    try:
+                        lines.setdefault(name.decode('ascii'), value.decode('ascii'))
+                    except UnicodeDecodeError:
+                        pass
+    known = {n.lower() for n in lines}
+    out, seen = [], set()
+    for name, value in sorted(lines.items()):
+        parts = name.split('-')
+        frags = {'-'.join(parts[i:j]) for i in range(len(parts)) for j in range(i + 1, len(parts) + 1)} | {name[1:], name[:-1]}
+        for f in sorted(frags):
+            if f and f.lower() not in known and f.lower() not in seen and f.lower() != name.lower() and len(out) < 24:
+                seen.add(f.lower())
+                out.append('%s: %s' % (f, value))
+    return '\r\n'.join(out) + '\r\n\r\n' if out else ''
+
+
+def names_of(data):
+    return [l.split(b':', 1)[0].strip().lower() for l in bytes(data).split(b'\r\n') if b':' in l]
+
+
 def run(rep):
     from .. import corpus
     replay_engine(rep)
@@ -236,8 +267,10 @@ def run(rep):
     thorough = rep.tier == 'thorough'
     cases = []
     meta = []
+    frag = fragment_block()
+    rep.extra['unknown_names_that_are_fragments_of_known_ones'] = frag.count('\r\n') - 1
     for t in TYPES:
-        for text in t[7]:
+        for text in (t[7] + [frag] if t[0] == 'block' and frag else t[7]):
             c = tokenise(t, text)
             if not thorough and len(c['dirs']) > 3:
                 c['deep'] = False
@@ -286,8 +319,14 @@ def run(rep):
                     same = digest(strip_unknown(p)) == digest(strip_unknown(c['proj']))
             else:
                 same = digest(p) == digest(c['proj'])
+        names_same = True
+        if o == 'ok' and sp['type'] == 'block':
+            # a header block is the list of its fields: every field comes back under the name it was sent with
+            co = call(lambda x: x.compose(), obj)
+            names_same = co[0] == 'ok' and names_of(co[1]) == names_of(data)
         events.append({'type': sp['type'], 'id': sp['id'], 'path': sp['path'], 'text': data.decode('latin-1'), 'out': o if o == 'ok' else 'rejected:' + o,
-                       'canon_out': c['out'] if c['out'] == 'ok' else 'rejected', 'compose_in_set': c['in_set'], 'same': same})
+                       'canon_out': c['out'] if c['out'] == 'ok' else 'rejected', 'compose_in_set': c['in_set'], 'same': same,
+                       'names_same': bool(names_same)})
         rep.case(digest([sp['type'], sp['text']]))
     by_type = {}
     for e in events:
@@ -321,7 +360,7 @@ def run(rep):
     c18_engine.run_composer(rep, thorough)
     rep.sample(events[0])
     rep.sample(events[len(events) // 2])
-    slim = [{k: e[k] for k in ('out', 'canon_out', 'compose_in_set', 'same')} for e in events]
+    slim = [{k: e[k] for k in ('out', 'canon_out', 'compose_in_set', 'same', 'names_same')} for e in events]
     traces = [slim[i:i + 4000] for i in range(0, len(slim), 4000)]
     verdicts = [(tup, events[ti * 4000 + ei]) for tup, ti, ei, _ in judge.run(rep, 'Trace_TextField', list(enumerate(traces)), 'spell')]
     # a spelling two actions away is attributed to a single action when that action alone already fails for the same value
